@@ -25,7 +25,10 @@
 (***************************************************************************)
 EXTENDS CheckerObs, Json, IOUtils, TLC
 
-CONSTANTS W, Strategy, BlockSize, KeepFirst
+CONSTANTS W, Strategy, BlockSize, KeepFirst,
+          TargetDepth,    \* target_max_depth (0 = none): jobs at this depth or deeper are skipped
+          TargetStates,   \* target_state_count (0 = none): checked after every block
+          FinishVariant   \* finish_when: "All" | "Any" | "AnyFailures" | "AllFailures"
 
 Graphs == ndJsonDeserialize(IOEnv.GRAPHS)
 
@@ -40,6 +43,7 @@ Job(s, p, e, d) == [node |-> s, path |-> p, eb |-> e, depth |-> d]
 EvBits == {i \in DOMAIN g.props : g.props[i].kind = "eventually"}
 Discovered(d) == {p[1] : p \in d}
 AllDisc(d) == \A i \in DOMAIN g.props : g.props[i].name \in Discovered(d)
+Finish == [variant |-> FinishVariant, names |-> <<>>]
 InitJobs == LET ins == SelectSeq(g.init, LAMBDA s : InB(g, s)) IN [i \in DOMAIN ins |-> Job(ins[i], <<ins[i]>>, EvBits, 1)]
 
 Init ==
@@ -114,7 +118,13 @@ Eval(w) ==
      ELSE LET q == pending[w]
               j == q[Len(q)]
               r == PropLoop(1, j, disc, j.eb, FALSE, Discovered(disc))
-          IN /\ pending' = [pending EXCEPT ![w] = SubSeq(q, 1, Len(q) - 1)]
+          IN IF TargetDepth > 0 /\ j.depth >= TargetDepth
+             THEN \* past the depth limit: the job is dropped without being evaluated
+                  /\ pending' = [pending EXCEPT ![w] = SubSeq(q, 1, Len(q) - 1)]
+                  /\ blk' = [blk EXCEPT ![w] = @ - 1]
+                  /\ UNCHANGED <<cur, idx, term, disc, visits, pc>>
+             ELSE
+             /\ pending' = [pending EXCEPT ![w] = SubSeq(q, 1, Len(q) - 1)]
              /\ blk' = [blk EXCEPT ![w] = @ - 1]
              /\ visits' = Append(visits, [node |-> j.node, path |-> j.path])
              /\ disc' = r.disc
@@ -154,7 +164,7 @@ Expand(w) ==
 (* after the block: finish_when(All), then the market visit (split_and_push) *)
 After(w) ==
   /\ pc[w] = "after"
-  /\ IF AllDisc(disc)
+  /\ IF Matches(Finish, Discovered(disc), g.props) \/ (TargetStates > 0 /\ total >= TargetStates)
      THEN DropBroker(w) /\ UNCHANGED blk
      ELSE IF ~open
           THEN /\ pending' = [pending EXCEPT ![w] = <<>>] /\ pc' = [pc EXCEPT ![w] = "pop"]
@@ -183,8 +193,8 @@ AllDone == \A w \in W : pc[w] = "done"
 ActsOf(path) == [i \in 1..(Len(path) - 1) |-> CHOOSE k \in DOMAIN SuccList(g, path[i]) : SuccList(g, path[i])[k] = path[i + 1]]
 (* the behaviour so far, in the shape of a recorded real run *)
 RunRecord ==
-  [cfg |-> [strategy |-> Strategy, threads |-> N, symmetry |-> FALSE, finish |-> [variant |-> "All", names |-> <<>>],
-            target_states |-> 0, target_depth |-> 0, timeout_ms |-> 0],
+  [cfg |-> [strategy |-> Strategy, threads |-> N, symmetry |-> FALSE, finish |-> Finish,
+            target_states |-> TargetStates, target_depth |-> TargetDepth, timeout_ms |-> 0],
    visits |-> [i \in DOMAIN visits |-> [node |-> visits[i].node, path |-> visits[i].path, acts |-> ActsOf(visits[i].path)]],
    chooser |-> <<>>, chooser2 |-> <<>>,
    done |-> [joined |-> TRUE, join_panicked |-> FALSE, spawn_panicked |-> FALSE, disc_panicked |-> FALSE,
@@ -195,7 +205,8 @@ RunRecord ==
                                                            <<[name |-> x[1], states |-> x[2], acts |-> ActsOf(x[2])]>> \o F(T \ {x})
                              IN F(S)]]
 
-Judged == {"no_panic", "paths", "subset", "once", "complete", "verdicts", "witness", "ev_sound", "ev_exact", "bfs_order", "shortest", "stop_reason"}
+Judged == {"no_panic", "paths", "subset", "once", "complete", "verdicts", "witness", "ev_sound", "ev_exact", "bfs_order", "shortest", "stop_reason",
+           "target", "target_real", "depth_max", "depth_min"}
 (* at the end of every behaviour the observation passes exactly the checks real runs must pass *)
 EndOK == AllDone => (Failed(g, RunRecord) \cap Judged) = {}
 (* C03 at every moment: whatever is in the discovery map is a genuine witness *)
